@@ -4,7 +4,7 @@ import Mathlib.Tactic.Ring
 import M3d.Lemmas.SmoothTop2
 import M3d.Lemmas.SolidTree
 import M3d.Lemmas.Stack
-import M3d.Lemmas.RectSetTree
+import M3d.Lemmas.RectSetHist
 /-!
 # C04 — solid combinators implement exact, order-independent set algebra
 
@@ -110,6 +110,38 @@ theorem mux_contains_eq (n : Nat) (g : List (Nat × Solid K) → List (Nat × So
   obtain ⟨m, hm, _, h⟩ := mux_spec n g solids hg hne hb
   exact ⟨m, hm, fun p => (h p).1⟩
 
+/-- `SolidMux.AllContains(c)` is, entry by entry, `Contains(c)` of the solids in their original order. -/
+theorem mux_allcontains_eq (n : Nat) (g : List (Nat × Solid K) → List (Nat × Solid K)) (solids : List (Solid K))
+    (hg : (g ((List.range solids.length).zip solids)).Perm ((List.range solids.length).zip solids))
+    (hne : solids ≠ []) (hb : ∀ x ∈ solids, Bounded n x) :
+    ∃ m, newMux g solids = some m ∧ ∀ p, m.allContains n p = solids.map (fun s => s.f p) := by
+  obtain ⟨m, hm, htot, h⟩ := mux_spec n g solids hg hne hb
+  refine ⟨m, hm, fun p => ?_⟩
+  apply List.ext_getElem?
+  intro i
+  have hiter : i ∈ m.iter n p ↔ ∃ s, solids[i]? = some s ∧ s.f p = true := by
+    rw [(h p).2.1.mem_iff, List.mem_map]
+    constructor
+    · rintro ⟨⟨j, s⟩, hmem, rfl⟩
+      obtain ⟨hz, hf⟩ := List.mem_filter.mp hmem
+      exact ⟨s, (mem_zip_range solids j s).mp hz, hf⟩
+    · rintro ⟨s, hs, hf⟩
+      exact ⟨(i, s), List.mem_filter.mpr ⟨(mem_zip_range solids i s).mpr hs, hf⟩, rfl⟩
+  unfold Mux.allContains
+  rw [getElem?_setFold, htot, List.getElem?_replicate, List.getElem?_map]
+  by_cases hi : i < solids.length
+  · have hs : solids[i]? = some solids[i] := List.getElem?_eq_getElem hi
+    simp only [hi, if_true, hs, Option.map_some]
+    by_cases hf : solids[i].f p = true
+    · rw [if_pos (hiter.mpr ⟨_, hs, hf⟩), hf]
+    · rw [if_neg (fun hc => by
+        obtain ⟨s, hs', hf'⟩ := hiter.mp hc
+        rw [hs] at hs'; cases hs'; exact hf hf')]
+      simp only [Bool.not_eq_true] at hf
+      rw [hf]
+  · have hs : solids[i]? = none := List.getElem?_eq_none (by omega)
+    simp [hi, hs]
+
 /-- Non-vacuity: two overlapping unit boxes in the plane are bounded operands. -/
 example : ∃ (a b : Solid Int), Bounded 2 a ∧ Bounded 2 b ∧ a.f (fun _ => 1) = true := by
   refine ⟨⟨⟨fun _ => 0, fun _ => 1⟩, fun p => (⟨fun _ => 0, fun _ => 1⟩ : Box Int).contains 2 p⟩,
@@ -144,6 +176,23 @@ theorem stackedSolid_eq (s0 : Solid K) (rest : List (Solid K)) (p : Pt K) :
   simp only [stackOffsets, sub_self, add_zero]
   cases (⟨(joinedBox s0 rest).lo, stackedMax s0 rest⟩ : Box K).contains 3 p <;> simp
 
+/-- For operands that respect their bounds (with `min.z ≤ max.z`) `StackedSolid`'s own bounds test is
+redundant: **`StackedSolid.Contains` is exactly the translated union**, the same set as `StackSolids`. -/
+theorem stackedSolid_eq_translated_union (s0 : Solid K) (rest : List (Solid K))
+    (hb : ∀ x ∈ s0 :: rest, Bounded 3 x) (hv : ∀ x ∈ s0 :: rest, x.box.lo 2 ≤ x.box.hi 2) (p : Pt K) :
+    stackedContains (s0 :: rest) p
+      = translatedUnion (s0 :: rest) (0 :: stackOffsets (s0.box.hi 2) rest) p := by
+  rw [stackedSolid_eq]
+  cases h : translatedUnion (s0 :: rest) (0 :: stackOffsets (s0.box.hi 2) rest) p
+  · simp
+  · rw [stacked_bounds_redundant s0 rest hb hv p h]; rfl
+
+/-- … so the deprecated type and the function agree at every point. -/
+theorem stackedSolid_eq_stackSolids (s0 : Solid K) (rest : List (Solid K))
+    (hb : ∀ x ∈ s0 :: rest, Bounded 3 x) (hv : ∀ x ∈ s0 :: rest, x.box.lo 2 ≤ x.box.hi 2) (p : Pt K) :
+    stackedContains (s0 :: rest) p = joined ((stackSolids (s0 :: rest)).map (·.f)) p := by
+  rw [stackedSolid_eq_translated_union s0 rest hb hv, stacked_eq_translated_union s0 rest hb]
+
 end Stack
 
 /-! ## The box-set solid (`toolbox3d.RectSet.Solid`) -/
@@ -153,26 +202,68 @@ variable {K : Type} [LinearOrder K] [OfNat K 0]
 
 /-- `rectSetSolid.Contains` answers exactly like the plain "some stored box contains the point" on
 every tree in which boxes filed below a cutoff end at or before it, boxes filed above start at or after
-it and the cached node bounds enclose them (`Tree.WellSplit` — what the alignment of the stored boxes
-with the split planes provides; points **on** a split plane take the `below || above` branch). -/
-theorem rectset_solid_eq_any (t : RectSet.Tree K) (h : t.WellSplit) (p : List K) :
+it and the cached node bounds enclose them (`Tree.WellSplit`; points **on** a split plane take the
+`below || above` branch; a `many` leaf checks its boxes one by one). -/
+theorem rectset_solid_eq_any (t : RectSet.Tree K) (h : t.WellSplit) (p : V3 K) :
     t.contains p = t.rects.any (fun r => r.contains p) :=
   RectSet.Tree.contains_eq_any t h p
 
-/-- The tree `newRectSetSolid` builds has exactly the stored boxes at its leaves, so together with
-`rectset_solid_eq_any`: whenever the built tree is well split (decided by `Tree.wellSplitB`, which the
-driver evaluates on every tree it builds) the solid equals the union of the stored boxes. -/
-theorem rectset_build_eq_any (fuel : Nat) (s : RS K) (t : RectSet.Tree K) (hb : build fuel s = some t)
-    (hw : t.wellSplitB = true) (p : List K) :
-    t.contains p = s.rects.any (fun r => r.contains p) := by
-  rw [rectset_solid_eq_any t (RectSet.Tree.wellSplitB_sound t hw) p]
-  exact (build_rects fuel s t hb).any_eq
+/-- **Representation invariant, for every history** (`NewRectSet`, then any finite sequence of `Add`,
+`Remove`, `AddRectSet`, `RemoveRectSet`, the argument sets being built the same way): the stored boxes
+are pairwise distinct, both ends of every stored box lie on split planes, no split plane passes
+strictly through a stored box, and the split lists are strictly ascending. -/
+theorem rectset_history_aligned (h : Hist K) :
+    h.eval.rects.Nodup ∧
+    (∀ ax, ax < 3 → (h.eval.splits.get ax).Pairwise (· < ·)) ∧
+    (∀ r ∈ h.eval.rects, ∀ ax, ax < 3 → r.lo.get ax ∈ h.eval.splits.get ax ∧ r.hi.get ax ∈ h.eval.splits.get ax) ∧
+    (∀ r ∈ h.eval.rects, ∀ ax, ax < 3 → ∀ w ∈ h.eval.splits.get ax, ¬ (r.lo.get ax < w ∧ w < r.hi.get ax)) :=
+  ⟨(hinv h).inv.nodup, (hinv h).inv.sorted, (hinv h).inv.ends, (hinv h).inv.aligned⟩
 
-/-- Non-vacuity: two unit boxes side by side, split at x = 1, build a well-split tree; the point on the
-split plane is found (it is in both). -/
+/-- … hence the stored boxes are **pairwise interior-disjoint**: two stored boxes with a common
+point strictly inside both are the same box. -/
+theorem rectset_history_interior_disjoint (h : Hist K) {q q' : Rect K} (hq : q ∈ h.eval.rects)
+    (hq' : q' ∈ h.eval.rects) (p : V3 K)
+    (hp : ∀ ax, ax < 3 → q.lo.get ax < p.get ax ∧ p.get ax < q.hi.get ax ∧
+      q'.lo.get ax < p.get ax ∧ p.get ax < q'.hi.get ax) : q = q' :=
+  same_cell_of_strict ((hinv h).inv.ends q hq) ((hinv h).inv.aligned q hq)
+    ((hinv h).inv.ends q' hq') ((hinv h).inv.aligned q' hq') hp
+
+/-- **`RectSet.Solid()` after any history**: `newRectSetSolid` terminates (fuel = number of boxes + 1
+is never exhausted), the tree is well split, `Contains` is exactly "some stored box contains the point"
+at **every** point, and at every point that lies on none of the planes through the faces of the boxes
+of the history it is exactly the point set *boxes added minus boxes removed, in order* (`Hist.sem`).
+(On those planes a removed box leaves the closed faces of its neighbours behind, so the stored-box
+union — a closed set — is the right specification there.) -/
+theorem rectset_history_solid_eq_union (h : Hist K) :
+    ∃ t, build (h.eval.rects.length + 1) h.eval = some t ∧ t.WellSplit ∧
+      (∀ p, t.contains p = h.eval.rects.any (fun r => r.contains p)) ∧
+      (∀ p, h.Generic p → t.contains p = h.sem p) := by
+  obtain ⟨t, ht, hw⟩ := build_spec (h.eval.rects.length + 1) h.eval (hinv h).inv (Nat.lt_succ_self _)
+  have hu : ∀ p, t.contains p = h.eval.rects.any (fun r => r.contains p) := fun p => by
+    rw [rectset_solid_eq_any t hw p]
+    exact (build_rects _ _ _ ht).any_eq
+  exact ⟨t, ht, hw, hu, fun p g => (hu p).trans ((hinv h).sem p g)⟩
+
+/-- `Add` and `AddRectSet` are exact at **every** point (no genericity needed): the union of the stored
+boxes grows by exactly the closed box / by the other set's union. -/
+theorem rectset_add_exact (h : Hist K) (r : Rect K) (p : V3 K) :
+    (Hist.add h r).eval.union p = (h.eval.union p || r.contains p) := by
+  obtain ⟨a1, a2, a3⟩ := addRectSplits_spec (hinv h).inv r
+  have hR : ∀ r' ∈ [r], ∀ ax, ax < 3 → r'.lo.get ax ∈ (addRectSplits h.eval r).splits.get ax ∧
+      r'.hi.get ax ∈ (addRectSplits h.eval r).splits.get ax := by
+    intro r' hr' ax hax
+    rw [List.mem_singleton] at hr'; subst hr'
+    exact ⟨(a3 ax hax _).mpr (Or.inr (Or.inl rfl)), (a3 ax hax _).mpr (Or.inr (Or.inr rfl))⟩
+  rw [Hist.eval, add_eq, (addPieces_spec a1 [r] hR).2 p, a2 p]
+  simp
+
+/-- Non-vacuity: a history with a removal, an `AddRectSet` and a zero-thickness box; the built tree
+answers at a generic point, on a split plane and outside. -/
 example :
-    let s : RS Int := (RS.empty.add ⟨[0, 0, 0], [1, 1, 1]⟩).add ⟨[1, 0, 0], [2, 1, 1]⟩
-    ∃ t, build 4 s = some t ∧ t.wellSplitB = true ∧ t.contains [1, 0, 0] = true ∧ t.contains [3, 0, 0] = false := by
+    let h : Hist Int := .addSet (.remove (.add .new ⟨⟨0, 0, 0⟩, ⟨2, 2, 2⟩⟩) ⟨⟨1, 0, 0⟩, ⟨2, 2, 2⟩⟩)
+      (.add (.add .new ⟨⟨3, 0, 0⟩, ⟨3, 1, 1⟩⟩) ⟨⟨2, 0, 0⟩, ⟨3, 1, 1⟩⟩)
+    ∃ t, build (h.eval.rects.length + 1) h.eval = some t ∧ t.wellSplitB = true ∧
+      t.contains ⟨1, 1, 1⟩ = true ∧ t.contains ⟨3, 1, 1⟩ = true ∧ t.contains ⟨5, 0, 0⟩ = false := by
   decide +kernel
 
 end RectSetSolid
@@ -390,6 +481,62 @@ private theorem slot_eq {l : List (K × Pt K)} {x y : DN K}
     obtain ⟨b, hb, rfl⟩ := List.mem_map.mp hy
     simp only [Option.some.injEq] at hk
     rw [hinj a ha b hb hk]
+
+/-- **`SmoothJoinV2` computes its specification** (`smoothSpecV2`, what the correspondence compares
+`sj2` lines against): inside iff some operand is positive, or the rounding test passes for the two
+operands with the largest distances (found by sorting), with their normals — whenever operands that
+report the same distance also report the same normal. -/
+theorem smoothV2_eq_spec (n : Nat) (sqrt abs : K → K) (radius : K) (es : List (K × Pt K))
+    (hinj : ∀ a ∈ es, ∀ b ∈ es, a.1 = b.1 → a = b) :
+    smoothJoinV2 n sqrt abs radius es = smoothSpecV2 n sqrt abs radius es := by
+  -- the sorted list the specification looks at
+  have hperm : (es.mergeSort (fun a b => decide (b.1 ≤ a.1))).Perm es := List.mergeSort_perm _ _
+  have hpw : (es.mergeSort (fun a b => decide (b.1 ≤ a.1))).Pairwise (fun a b => b.1 ≤ a.1) := by
+    have := List.pairwise_mergeSort (le := fun a b : K × Pt K => decide (b.1 ≤ a.1))
+      (fun a b c => by simp only [decide_eq_true_eq]; exact fun h1 h2 => le_trans h2 h1)
+      (fun a b => by simp only [Bool.or_eq_true, decide_eq_true_eq]; exact le_total _ _) es
+    simpa using this
+  generalize hs : es.mergeSort (fun a b => decide (b.1 ≤ a.1)) = s at hperm hpw
+  have hkeys := stepFold_keys (V := Pt K) (fun _ => (0 : K)) es
+  have htop : top2Spec (es.map (·.1)) = (s[0]?.map (·.1), s[1]?.map (·.1)) := by
+    rw [← top2Spec_perm (hperm.map (·.1)), top2Spec_of_desc _ (List.pairwise_map.mpr hpw)]
+    simp
+  rw [htop] at hkeys
+  simp only [Prod.map, Prod.mk.injEq] at hkeys
+  have hmem := stepFold_mem (α := K) (E := DN K) Prod.fst 0 ((none, fun _ => 0), (none, fun _ => 0))
+    (es.map fun e => (some e.1, e.2))
+  -- each slot is the operand the specification picks
+  have slot : ∀ (x : DN K) (o : Option (K × Pt K)),
+      (x = (none, fun _ => 0) ∨ x ∈ es.map (fun e => ((some e.1, e.2) : DN K))) →
+      (∀ e, o = some e → e ∈ es) → x.1 = o.map (·.1) →
+      x = (o.map (·.1), (o.map (·.2)).getD (fun _ => 0)) := by
+    intro x o hx ho hk
+    cases o with
+    | none =>
+      refine slot_eq (l := es) hx (Or.inl rfl) ?_ hinj
+      simpa using hk
+    | some e =>
+      refine slot_eq (l := es) hx (Or.inr (List.mem_map.mpr ⟨e, ho e rfl, rfl⟩)) ?_ hinj
+      simpa using hk
+  have hin : ∀ (k : Nat) (e : K × Pt K), s[k]? = some e → e ∈ es := fun k e h =>
+    hperm.subset (List.mem_of_getElem? h)
+  have h0 := slot _ (s[0]?) (by rcases hmem.1 with h | h | h <;> [exact Or.inl h; exact Or.inl h; exact Or.inr h])
+    (hin 0) hkeys.1
+  have h1 := slot _ (s[1]?) (by rcases hmem.2 with h | h | h <;> [exact Or.inl h; exact Or.inl h; exact Or.inr h])
+    (hin 1) hkeys.2
+  unfold smoothJoinV2 smoothSpecV2
+  simp only [smoothLoop_eq, hs]
+  have hany : (es.map fun e => ((some e.1, e.2) : DN K)).any (fun e => posE (Prod.fst e))
+      = es.any (fun e => decide (0 < e.1)) := by
+    simp [List.any_map, Function.comp_def, posE]
+  rw [hany]
+  cases es.any (fun e => decide (0 < e.1))
+  · simp only [Bool.false_eq_true, if_false, Bool.false_or]
+    rw [show stepFold (E := DN K) Prod.fst 0 ((none, fun _ => 0), (none, fun _ => 0))
+          (es.map fun e => (some e.1, e.2))
+        = ((s[0]?.map (·.1), (s[0]?.map (·.2)).getD (fun _ => 0)),
+           (s[1]?.map (·.1), (s[1]?.map (·.2)).getD (fun _ => 0))) from Prod.ext h0 h1]
+  · simp
 
 /-- `SmoothJoinV2` gives the same answer for every ordering of its operands, provided operands that
 report the same distance at the point also report the same normal (with tied distances and different
